@@ -103,7 +103,7 @@ CHECKS = {
          "DESIGN.md §4 C13"),
  "C16": ("model_checking",
          "stateless model checking of the real goroutine pipelines under a controlled cooperative scheduler: DFS over scheduler decisions with preemption / delay bounding, vector-clock race detection",
-         "A build-time overlay routes every go statement, channel send / receive / range / close, reflect.Select, WaitGroup, Mutex lock and unlock operation of the ingest worker pool, sorter producer, differ, merger and row collector through a scheduler that runs one goroutine at a time and keeps channel contents itself; the explorer enumerates every schedule within the stated preemption (or, for the five-thread merger, delay) bound, including which ready select case fires and the iteration order of the merger's map. Each complete schedule must terminate, avoid send-on-closed / double close / deadlock, be free of happens-before races on the inserter's shared fields, return the single-worker result and surface injected store errors. Every explored schedule is an execution of the repository's code. Unsynchronised accesses that a cooperative scheduler cannot see are covered by a separate cross-check: the same harness bodies run free (no scheduler) in a binary compiled with the Go race detector, several repetitions per configuration - that harness is a detector pass, not an enumeration of schedules, and is labelled as such in the evidence.",
+         "A build-time overlay routes every go statement, channel send / receive / range / close, reflect.Select, WaitGroup, Mutex lock and unlock operation of the ingest worker pool, sorter producer, differ, merger and row collector through a scheduler that runs one goroutine at a time and keeps channel contents itself; the explorer enumerates every schedule within the stated preemption (or, for the five-thread merger, delay) bound, including which ready select case fires and the iteration order of the merger's map. Each complete schedule must terminate, avoid send-on-closed / double close / deadlock, be free of happens-before races on the inserter's shared fields, return the single-worker result and surface injected store errors (single and persistent read faults in the merger). The progress bars that commit and merge drive (pkg/pbar) are checked by enumerating every short use of a bar under a build-time hang check. Every explored schedule is an execution of the repository's code. Unsynchronised accesses that a cooperative scheduler cannot see are covered by a separate cross-check: the same harness bodies run free (no scheduler) in a binary compiled with the Go race detector, several repetitions per configuration - that harness is a detector pass, not an enumeration of schedules, and is labelled as such in the evidence.",
          "Trusted: the scheduler shim (450 lines) and the textual rewrite rules (fail-closed when a construct is not matched, and the overlaid build must compile). Sequential consistency at the granularity of rewritten operations; <= 3 workers, <= 3 blocks; Badger / progress-bar goroutines are outside the scheduler.",
          "DESIGN.md §4 C16"),
 }
